@@ -165,6 +165,25 @@ def check_other_pos(ctx, rep, rule='T-other-pos'):
     rep.floor(rule, 'exchange paths', n_swap, 1)
 
 
+def _mentions_param(v, name):
+    return any(y[0] == 'param' and y[2] == name for y in sym.walk(v))
+
+
+def _processed_test(x):
+    """membership of a position in the processed set: `processed.contains(&p)` or `processed[p as usize]`"""
+    x = strip_upd(x)
+    if x[0] in ('call', 'pcall') and x[1].endswith('::contains') and x[2] and _mentions_param(x[2][0], 'processed'):
+        return True
+    y = x
+    while y[0] in ('deref', 'refval') and len(y) > 1:
+        y = strip_upd(y[1])
+    if y[0] == 'index' and _mentions_param(y[1], 'processed'):
+        return True
+    if y[0] in ('call', 'pcall') and re.search(r'Index<.*>>::index$', y[1]) and y[2] and _mentions_param(y[2][0], 'processed'):
+        return True
+    return False
+
+
 def check_next_pos(ctx, rep, rule='T-next-pos'):
     b, ps = rep.explore(ctx, NEXTPOS, rule)
     if b is None:
@@ -177,7 +196,7 @@ def check_next_pos(ctx, rep, rule='T-next-pos'):
             x = strip_upd(v)
             if x[0] == 'op' and x[1] in ('eq', 'ne') and 'iteration_map' in show(noepoch(x)):
                 back = c[1] if x[1] == 'eq' else not c[1]
-            elif x[0] in ('call', 'pcall') and x[1].endswith('::contains'):
+            elif _processed_test(x):
                 proc = c[1]
         if p.end == 'return':
             r = strip_upd(p.ret)
@@ -209,8 +228,15 @@ def check_mark(ctx, rep, rule='T-mark'):
     for p in ps:
         ins = [e for e in p.calls() if e['callee'].endswith('::insert')]
         cs = [s for s in event_cell_stores(p) if s[2] == 'output_contour_id']
-        ok = len(ins) == 1 and strip_upd(ins[0]['args'][0])[0] == 'param' and strip_upd(ins[0]['args'][1])[0] == 'param' \
-            and strip_upd(ins[0]['args'][1])[2] == 'pos' and len(cs) == 1 and strip_upd(cs[0][3])[0] == 'param' and strip_upd(cs[0][3])[2] == 'contour_id' \
+        ins_ok = len(ins) == 1 and strip_upd(ins[0]['args'][0])[0] == 'param' and strip_upd(ins[0]['args'][1])[0] == 'param' \
+            and strip_upd(ins[0]['args'][1])[2] == 'pos'
+        if not ins:
+            # a flag vector instead of a set: processed[pos as usize] = true
+            flags = [e for e in p.events if e['k'] == 'store' and e['loc'][0][0] == 'ext' and _mentions_param(e['loc'][0][1], 'processed')]
+            ins = flags
+            ins_ok = len(flags) == 1 and sym.is_const(strip_upd(flags[0]['val'])) and strip_upd(flags[0]['val'])[1] is True \
+                and any(pe[0] == 'i' and _mentions_param(pe[1], 'pos') and not _mentions_param(pe[1], 'contour_id') for pe in flags[0]['loc'][1])
+        ok = ins_ok and len(cs) == 1 and strip_upd(cs[0][3])[0] == 'param' and strip_upd(cs[0][3])[2] == 'contour_id' \
             and re.search(r'result_events\[\(pos as usize\)\]', show(noepoch(cs[0][1]))) is not None
         rep.ob(rule, 'mark=insert(pos)+set_output_contour_id(result_events[pos], contour_id)', ok,
                'mark_as_processed must record `pos` as processed and give result_events[pos] the contour id; found inserts=%d stores=%s'
